@@ -30,7 +30,9 @@ RULE = ("(A) value mapping: input dtype {u8,i8,i16,u16,i32,u32,f32,f64} x "
         "{3-D, 4-D x2, 4-D x3, RGB} x {full, mmap} with position-coded "
         "voxels; (C) {raw, cseg 8^3, cseg 2^3, jpeg} x {deep/flat x gzip/"
         "no-gzip, sharded (1,1,0), (0,0,0), (2,1,1), (1,0,1) raw/gzip} on 5 "
-        "shapes. "
+        "shapes; label volumes with the same label sets in every channel as "
+        "cseg; conversions into a destination already holding another "
+        "volume (same layout, either gzip setting before). "
         "Thorough also reads .nii.gz inputs. Quick: A without mmap duplicates on 3 input types per target, B "
         "with 3 chunk sizes on 14 shapes, C in full. Non-trivial: >= 2 "
         "chunks, or a dtype change, or a scaling applied.")
@@ -108,10 +110,18 @@ def build_input(case):
                 v = 5 + 3 * idx[0] + 7 * idx[1] + 11 * idx[2]
                 if len(full) == 4:
                     v = v + 40 * idx[3]
+            elif case["fill"] == "labels":
+                # label volume: few labels, the same label sets (and a
+                # common background 0) in every channel
+                v = ((idx[0] // 2 + 2 * (idx[1] // 2) + idx[2] // 2) % 3)
+                if len(full) == 4:
+                    v = (v + idx[3]) % 3
+                v = v * 20000
             else:
                 v = 10 + 4 * idx[0] + 9 * idx[1] + 17 * idx[2]
                 if len(full) == 4:
                     v = v + 60 * idx[3]
+            v = v + case.get("fill_shift", 0)
             if not ex.is_int_type(dt):
                 v = v * 0.25
             a = v.astype(dt)
@@ -194,6 +204,30 @@ def _eval_in(col, case, d):
                     or case["scaling"] or case["minmax"]) else 0
     mm = case["minmax"]
     sandbox.install_atexit_capture()
+    prev = case.get("previous")
+    if prev is not None:
+        # the destination already holds an earlier conversion of another
+        # volume of the same geometry (same layout, possibly other gzip
+        # setting): the new conversion must replace it completely
+        arr0, _, _ = build_input(dict(case, fill_shift=37))
+        path0 = os.path.join(d, "v0.nii")
+        img0 = nibabel.Nifti1Image(arr0, np.diag([1.0, 1.0, 1.0, 1.0]),
+                                   dtype=arr0.dtype)
+        img0.header.set_data_dtype(arr0.dtype)
+        nibabel.save(img0, path0)
+        opts0 = dict(opts)
+        if st["kind"] == "file":
+            opts0["gzip"] = prev["gzip"]
+        try:
+            with sandbox.quiet(), np.errstate(all="ignore"):
+                volume_reader.volume_file_to_precomputed(
+                    path0, dest, ignore_scaling=False, input_min=None,
+                    input_max=None, load_full_volume=True, options=opts0)
+                sandbox.run_captured_exit_handlers()
+        except Exception:
+            col.ev(1, 0, "setup-failed")
+            return
+        sandbox.install_atexit_capture()
     try:
         with sandbox.quiet(), np.errstate(all="ignore"):
             status = volume_reader.volume_file_to_precomputed(
@@ -369,6 +403,31 @@ def cases(tier):
                     if block:
                         c["block"] = block
                     out.append(c)
+    # label volumes (shared label sets across channels) as
+    # compressed_segmentation, and conversions into a destination that
+    # already holds another volume
+    for sh in ((5, 4, 3), (8, 8, 8)):
+        for block in ([8, 8, 8], [2, 2, 2]):
+            for layout in ("3d", "4d2", "4d3"):
+                for st in (storages[0], storages[3], storages[4]):
+                    c = base_case(kind="storage", shape=list(sh),
+                                  chunk=[4, 4, 4], layout=layout,
+                                  in_dtype="uint16", out_dtype="uint32",
+                                  fill="labels",
+                                  encoding="compressed_segmentation",
+                                  storage=st)
+                    c["block"] = block
+                    out.append(c)
+    for st in storages:
+        for prev_gzip in (True, False):
+            if st["kind"] != "file" and not prev_gzip:
+                continue
+            for layout in ("3d", "4d2"):
+                out.append(base_case(
+                    kind="storage", shape=[5, 4, 3], chunk=[2, 2, 2],
+                    layout=layout, in_dtype="uint16", out_dtype="uint16",
+                    fill="position", encoding="raw", storage=st,
+                    previous={"gzip": prev_gzip}))
     return out
 
 
